@@ -52,6 +52,8 @@ def run(ctx):
                 cfgs.append((cc, opt, mode))
         # what distribution packagers put on the command line
         cfgs.append((cc, "-O2", "hardened"))
+    cfgs.append(("clang", "-Oz", "hosted"))        # clang's size level rewrites memcmp()==0 into bcmp() when it may assume a C library
+    cfgs.append(("gcc", "-O3", "hosted"))
     scns = c01.make_scenarios(ctx, ctx.n(320, 4000))
     scns = [s for s in scns if s.meta["fam"] not in ("esp32", "dse-inflated", "flow", "mutated")]
     for s in scns:
@@ -303,8 +305,8 @@ def run(ctx):
     rep.extra["lint_script"] = dict(exit=r.returncode, tail=r.stdout[-300:])
     if r.returncode != 0:
         rep.violation("C20:lint:os-specific-macro-or-header-in-core", "scripts/lint_core_no_os_conditionals.sh failed:\n" + r.stdout[-1500:])
-    rep.need("corpus_runs", rep.counters.get("corpus_runs", 0), 14)
-    rep.need("bracket_runs", rep.counters.get("bracket_runs", 0), 14)
+    rep.need("corpus_runs", rep.counters.get("corpus_runs", 0), 16)
+    rep.need("bracket_runs", rep.counters.get("bracket_runs", 0), 16)
     rep.need("cross_target_objects_checked", rep.counters.get("cross_target_objects_checked", 0), 6)
     if os.uname().machine == "x86_64":
         rep.need("bare_runs", rep.counters.get("bare_runs", 0), 12)
